@@ -1,5 +1,6 @@
 import CanvasModel.Driver
 import CanvasModel.C20
+import CanvasModel.C20.Pool
 import CanvasGen.FactsC20
 open Canvas Canvas.C20 Canvas.FactsC20
 
@@ -53,19 +54,47 @@ def handleRace (a b : String) : String :=
     match getSites.find? (fun g => g.initPos.contains a || g.initPos.contains b) with
     | some g => s!"FAIL pooled-{g.typ}-use-after-put a {g.typ} is overwritten by the initialisation after {g.pool}.Get in {g.fn} while another goroutine still uses it ({a}, {b})"
     | none =>
-      match [a, b].find? (·.startsWith "mod:") with
+      -- a dependency frame in a file that contains an alias copy `&(*e)` (the write side of the
+      -- shared-font mutation) names the class; otherwise the first dependency frame
+      let aliasFiles := aliasCopies.map fun c => (c.pos.splitOn ":").take 2
+      let inAlias := fun (p : String) => aliasFiles.contains ((p.splitOn ":").take 2)
+      match ([a, b].find? inAlias).orElse (fun _ => [a, b].find? (·.startsWith "mod:")) with
       | some m => s!"FAIL thirdparty:{((m.splitOn ":").getD 1 "?")} race inside a dependency ({a}, {b})"
       | none =>
         if inPoolFile a && inPoolFile b then
           s!"FAIL pooled-object-use-after-put two goroutines inside the pool-using sweep code touch one object ({a}, {b}): an object reached one of them after the other returned it to the pool"
         else s!"FAIL unlisted race at {a} / {b} is on no extracted package-level variable or pool site"
 
+/-- raw junk-pool observation of one Get site: `f=v0|v1` per field. A field with v0 ≠ v1 kept what the
+pool held. Verdict: FAIL if any field is stale (property), or if the field list differs from the
+extracted one, or if the model's verdict (`initOk`) and the observation disagree in the unsafe
+direction. -/
+def handleGetObs (fn obj typ : String) (obs : List String) : String :=
+  match getSites.find? (fun g => g.fn == fn && g.obj == obj) with
+  | none => s!"FAIL unknown-get-site {fn} {obj} is not in the extracted table"
+  | some g =>
+    let parsed := obs.map fun o =>
+      match o.splitOn "=" with
+      | f :: rest =>
+        let v := "=".intercalate rest
+        match v.splitOn "|" with
+        | [a, b] => (f, a != b)
+        | _ => (f, true)
+      | [] => ("?", true)
+    match getObsVerdict g typ parsed with
+    | .fieldList => s!"FAIL field-list-{typ} compiled fields {parsed.map (·.1)} differ from the extracted {g.fields}"
+    | .modelMissed f => s!"FAIL model-missed-stale-{typ}.{f} the statement sequence is accepted by initOk but the field keeps what the pool held"
+    | .stale f => s!"FAIL stale-field-{typ}.{f} {fn} ({obj}) leaves field {f} as the pool held it"
+    | .ok => s!"ok {typ} {g.fields.length} fields re-initialised"
+    | .modelRejects => s!"FAIL model-rejects-{typ} initOk rejects the sequence although no stale field was observed"
+
 def handle : List String → Option String
   | ["FIELDS", t] => (pooledStructs.lookup t).map (" ".intercalate ·)
   | ["GETSITES"] => some (toString getSites.length)
   | ["GET", fn, obj] =>
     (getSites.find? (fun g => g.fn == fn && g.obj == obj)).map fun g =>
-      g.typ ++ " " ++ " ".intercalate (g.fields.map fun f => f ++ "=" ++ (if g.assigned.contains f then "det" else "STALE"))
+      g.typ ++ " " ++ " ".intercalate (g.fields.map fun f => f ++ "=" ++ (if (assignedBy g.fields g.steps []).contains f then "det" else "STALE"))
+  | "GETOBS" :: fn :: obj :: typ :: obs => some (handleGetObs fn obj typ obs)
   | "TRACE" :: toks => handleTrace toks
   | "RACE" :: a :: b :: _ => some (handleRace a b)
   | _ => none
